@@ -1,1 +1,85 @@
-/- C02 — property theorems (to be written) -/
+/-
+  C02 — a tensor's rank bookkeeping always mirrors its fibertree.
+  Property theorems only; helpers in FtProofs/Lemmas/RankLemmas.lean.
+  A fiber is identified by its coordinate path from the root (unique in a well-formed tree);
+  `Mirror d t R` says that rank `i` lists exactly the fibers found at depth `i`.
+-/
+import FtProofs.Lemmas.RankLemmas
+set_option linter.unusedSectionVars false
+set_option linter.unusedSimpArgs false
+namespace Ft
+open StrictTotal
+open List
+
+section
+variable {κ ν : Type} [LT κ] [DecidableRel (α := κ) (· < ·)] [DecidableEq κ] [StrictTotal κ]
+
+/-- **constructors** (`setRoot` → `_addFiber`, used by fromFiber / fromUncompressed / fromRandom /
+    fromYAMLfile / deepcopy / every transform's result): depth-first registration is a mirror -/
+theorem ctor_mirror (d : Nat) (t : Tree κ ν d) : Mirror d t (regAll d t) := mirror_regAll d t
+
+/-- **insertion at any depth** (`getPayloadRef`, and hence `getPositionRef` and dense reference
+    iteration, which are sequences of it): creating the missing path and appending each created
+    fiber to the rank below its parent keeps the mirror -/
+theorem insert_mirror (dflt : ν) (d : Nat) (t : Tree κ ν d) (R : RankLists κ) (p : List κ)
+    (h : WF d t) (hm : Mirror d t R) :
+    Mirror d (refStepR dflt d t R p).1 (refStepR dflt d t R p).2 := refStepR_mirror dflt d t R p h hm
+
+/-- **clearing** the fiber at any path, unregistering the fibers below it, keeps the mirror -/
+theorem clear_mirror (d : Nat) (t : Tree κ ν (d + 1)) (R : RankLists κ) (q : List κ)
+    (h : WF (d + 1) t) (hm : Mirror (d + 1) t R) :
+    Mirror (d + 1) (clearStepR d t R q).1 (clearStepR d t R q).2 := clearStepR_mirror d t R q h hm
+
+theorem rankStep_wf (dflt : ν) (d : Nat) (s : Tree κ ν (d + 1) × RankLists κ) (op : RankOp κ)
+    (h : WF (d + 1) s.1) : WF (d + 1) (rankStep dflt d s op).1 := by
+  cases op with
+  | ref p => exact refAt_wf dflt (d + 1) s.1 h p
+  | clear q =>
+    have hF : ∀ (d' : Nat) (f : Tree κ ν (d' + 1)), WF (d' + 1) f →
+        WF (d' + 1) ((fun (_ : Nat) (_ : Tree κ ν (d' + 1)) => ((([] : List (κ × Tree κ ν d')) : Tree κ ν (d' + 1)), Outcome.ok)) d' f).1 :=
+      fun d' _ _ => ⟨List.Pairwise.nil, fun _ hx => by cases hx⟩
+    exact atPath_wf (fun _ _ => (([] : List _), Outcome.ok)) (fun d' f hf => ⟨List.Pairwise.nil, fun _ hx => by cases hx⟩) d s.1 q h
+
+/-- **histories**: after any sequence of insertions and clears, from any mirrored state, every
+    rank still lists exactly the live fibers of its depth -/
+theorem rank_run_mirror (dflt : ν) (d : Nat) : ∀ (ops : List (RankOp κ)) (s : Tree κ ν (d + 1) × RankLists κ),
+    WF (d + 1) s.1 → Mirror (d + 1) s.1 s.2 →
+    Mirror (d + 1) (rankRun dflt d s ops).1 (rankRun dflt d s ops).2 ∧ WF (d + 1) (rankRun dflt d s ops).1
+  | [], _, h, hm => ⟨hm, h⟩
+  | op :: ops, s, h, hm => by
+    have h' := rankStep_wf dflt d s op h
+    have hm' : Mirror (d + 1) (rankStep dflt d s op).1 (rankStep dflt d s op).2 := by
+      cases op with
+      | ref p => exact refStepR_mirror dflt (d + 1) s.1 s.2 p h hm
+      | clear q => exact clearStepR_mirror d s.1 s.2 q h hm
+    exact rank_run_mirror dflt d ops _ h' hm'
+
+/-- **derived quantities**: anything summed over a rank's list (per-rank footprint, statistics)
+    equals the same sum over the fibers a raw walk finds at that depth -/
+theorem derived_from_ranks (d : Nat) (t : Tree κ ν d) (R : RankLists κ) (hm : Mirror d t R)
+    (w : List κ → Nat) (i : Nat) (hi : i < d) :
+    ((R.getD i []).map w).sum = ((pathsAt d t i).map w).sum :=
+  ((hm.2 i hi).map w).sum_nat
+
+/-- the first rank holds the root and nothing else -/
+theorem root_rank (d : Nat) (t : Tree κ ν (d + 1)) (R : RankLists κ) (hm : Mirror (d + 1) t R) :
+    R.getD 0 [] = [[]] := by
+  have := hm.2 0 (Nat.succ_pos d)
+  rw [pathsAt_zero] at this
+  exact List.perm_singleton.1 this
+
+end
+
+/-! ### non-vacuity -/
+section
+private def tEx : Tree Int Int 3 := [(0, [(1, [(2, (5 : Int))]), (4, [])]), (3, [])]
+example : WF 3 tEx := (wfB_iff 3 tEx).1 (by decide)
+example : Mirror 3 tEx (regAll 3 tEx) := ctor_mirror 3 tEx
+#guard regAll 3 tEx == [[[]], [[0], [3]], [[0, 1], [0, 4]]]
+#guard (refStepR 0 3 tEx (regAll 3 tEx) [3, 7, 1]).2 == [[[]], [[0], [3]], [[0, 1], [0, 4], [3, 7]]]
+#guard (refStepR 0 3 tEx (regAll 3 tEx) [9, 9, 9]).2 == [[[]], [[0], [3], [9]], [[0, 1], [0, 4], [9, 9]]]
+#guard mirrorB 3 (refStepR 0 3 tEx (regAll 3 tEx) [9, 9, 9]).1 (refStepR 0 3 tEx (regAll 3 tEx) [9, 9, 9]).2
+#guard (clearStepR 2 tEx (regAll 3 tEx) [0]).2 == [[[]], [[0], [3]], []]
+#guard !mirrorB 3 (clearStepR 2 tEx (regAll 3 tEx) [0]).1 (regAll 3 tEx)
+end
+end Ft
